@@ -495,3 +495,25 @@ Definition mon_C13_ltkey (c:ccfg) (s:lt_mon) (op:mop) (o:obs) : bool :=
       end
   | _ => true
   end.
+
+(* C13, "then the credential attributes the mechanism requires", for the long-term mechanism: once challenged, every request
+   carries the identity the latest accepted challenge asked for (USERNAME, or USERHASH under anonymity), that challenge's
+   REALM and the NONCE of the latest challenge / stale-nonce reply the client ACCEPTED (was told to retry for): values
+   taken from a reply the client discarded must never show up. This is the identity / realm / nonce part of
+   server_verdict (C08), judged under C13 as well; run by the driver next to mon_C13. *)
+Definition mon_C13_ltcred (c:ccfg) (s:lt_mon) (op:mop) (o:obs) : bool :=
+  if negb (cc_mech c =? 4) || negb (lm_challenged s) then true else
+  match op with
+  | MSend _ _ _ _ _ =>
+      match first_out o with
+      | Some (Some p) =>
+          let req := m_attrs p in
+          (if lm_anon s
+           then existsb (fun a => attr_eqb a (UserHash 0 (lm_realm s))) req && negb (existsb (fun a => wire_type a =? 6) req)
+           else existsb (fun a => attr_eqb a (UserName 0)) req && negb (existsb (fun a => wire_type a =? 30) req))
+          && (match get_realm req with Some r => r =? lm_realm s | None => false end)
+          && (match get_nonce req with Some n => (fst n =? fst (lm_nonce s)) && (snd n =? snd (lm_nonce s)) | None => false end)
+      | _ => true
+      end
+  | _ => true
+  end.
